@@ -1,8 +1,10 @@
 (** Prop_C04.v -- C04: allocate returns a free, shortest-available nameplate.
     Pure part (the allocator, for every set of names in use and every outcome
-    of the random choices); the history part (the allocating side holds a
-    committed claim when the answer is sent) is in Prop_C04h.v. *)
-From MW Require Import Base Store Monad Usage Server StoreFacts AllocFacts.
+    of the random choices) and history part (the answer is what the allocator
+    computed from the UNFILTERED set of names in use -- whatever the listing
+    configuration --, it was free, and the allocating side holds a committed
+    claim on it when the answer is sent). *)
+From MW Require Import Base Store Monad Usage Server Websocket Service Inv Obs StoreFacts AllocFacts ProtoFacts NpFactsA NpFactsB.
 
 Theorem C04_allocator :
   forall claimed o n,
@@ -67,6 +69,28 @@ Theorem C04_every_choice_accepted :
   find_available claimed (mkAO (Some n) draws) = AllocOk n.
 Proof. exact find_available_accepts. Qed.
 Print Assumptions C04_every_choice_accepted.
+
+(** in every well-formed state, for every configuration: `allocated n` is sent
+    only with n = what [find_available] returns on [sel_names d a] (the unfiltered
+    names of the app: C04_allocator says what that can be), no row (a, n) existed,
+    and afterwards -- committed, [chan_c s' = chan_w s'] -- the allocating side is
+    a holder of (a, n); nothing else is removed or altered *)
+Theorem C04_allocate_outcome : ltac:(let t := type of allocate_outcome in exact t).
+Proof. exact allocate_outcome. Qed.
+Check C04_allocate_outcome.
+Print Assumptions C04_allocate_outcome.
+
+(** the names in use: exactly the names with a row in the app, listing allowed or not *)
+Theorem C04_names_in_use_exact : ltac:(let t := type of sel_names_spec in exact t).
+Proof. exact sel_names_spec. Qed.
+Check C04_names_in_use_exact.
+Print Assumptions C04_names_in_use_exact.
+
+(** free = no row: so no other allocate can return it while the row lives *)
+Theorem C04_free_means_no_row : ltac:(let t := type of sel_np_names in exact t).
+Proof. exact sel_np_names. Qed.
+Check C04_free_means_no_row.
+Print Assumptions C04_free_means_no_row.
 
 (** a hole: 1..8 and the decoy "x" are held, 9 is free: the answer is "9" *)
 Example C04_nonvacuous :
